@@ -32,7 +32,7 @@ RULE = ('geometry family x operation x argument, crossed completely: refine(regi
         'bisect_edge_columns in {none, all outside neighbours of the region}) for every non-empty column subset of '
         'geometries with <= 12 columns and singles / neighbour pairs / disks / rings-with-hole / full on larger ones; '
         'split_column every quadrilateral x node; decompose_columns and triangulate_column on every polygon built '
-        'from a triangle/quadrilateral/pentagon plus every admissible subset of sides carrying a straight mid-side '
+        'from a triangle/quadrilateral/pentagon plus every admissible assignment of 0, 1 or 2 straight mid-side '
         'node x every rotation of the node list, inside a ring of neighbours; refine_layers every layer subset x '
         'factor 2,3,4.  A case is non-trivial when the operation changed the geometry; distinct = distinct '
         '(geometry, operation, canonical argument)')
@@ -54,13 +54,13 @@ ASSUMPTIONS = [
 BOUNDS = {
     'quick': {'geometries': ['r3x3', 't8', 'mixed6', 'polygons', 'layers', 'r3x3+refined(sample)', 'g7(sample)'],
               'regions': 'every non-empty subset (r3x3: 511, t8: 255); samples: singles on a stride, one pair/disk/ring, full',
-              'polygons': 'all 353 (base, mid-side subset, rotation) x {decompose_columns, triangulate_column}',
-              'layers': 'every subset of 3 and of 4 layers x factor 2,3,4'},
+              'polygons': 'all 1253 (base, 0..2 mid-side nodes per side, rotation) x {decompose_columns, triangulate_column}',
+              'layers': 'every subset of 3 and of 4 layers x factor 2,3,4, also with the atmosphere layer named like a subsurface layer'},
     'thorough': {'geometries': ['r3x3', 'r4x3', 't8', 'mixed6', 'mixed6+decomposed', 'polygons', 'layers',
                                 'r3x3+refined', 'r4x3+refined', 't8+refined', 'g7', 'g7+refined(sample)'],
                  'regions': 'every non-empty subset where <= 12 columns (511 / 4095 / 255 / 4095); larger: all singles, '
                             'all neighbour pairs, all disks, all rings with hole, full',
-                 'polygons': 'all 353 x 2', 'layers': 'every subset of 3 and of 4 layers x factor 2,3,4'},
+                 'polygons': 'all 1253 x 2', 'layers': 'every subset of 3 and of 4 layers x factor 2,3,4, also with the atmosphere layer named like a subsurface layer'},
 }
 TECHNIQUE = ('bounded exhaustive enumeration of refinement regions, modes and polygon shapes on the real methods '
              'against an exact-arithmetic reference geometry')
@@ -195,6 +195,12 @@ def base(name):
     root = name[:-len('+refined')] if plus else name
     if root == 'r3x3':
         geo = geo_rect(*R3)
+    elif root == 'r3x3n':
+        # layer names as in the shipped g4.dat: the atmosphere layer is called ' 1', a name the layer-name
+        # generator also gives to a subsurface layer
+        geo = geo_rect(*R3)
+        with quiet():
+            geo.rename_layer([' 3', ' 2', ' 1', ' 0'], [' 4', ' 3', ' 2', ' 1'])
     elif root == 'r4x3':
         geo = geo_rect(*R4)
     elif root == 't8':
@@ -517,18 +523,20 @@ def polygon_cases():
     cases = []
     for bname in ('tri', 'quad', 'pent'):
         m = len(BASES[bname])
-        for k in range(0, m + 1):
-            if m + k < 5:
+        # 0, 1 or 2 straight mid-side nodes on every side; 5 or more sides; at most 4 straight angles, plus
+        # the one-per-side polygons with 5 (pentagon base)
+        for counts in itertools.product((0, 1, 2), repeat=m):
+            k = sum(counts)
+            if m + k < 5 or (k > 4 and max(counts) > 1) or k > 5:
                 continue
-            for E in itertools.combinations(range(m), k):
-                for r in range(m + k):
-                    cases.append((bname, list(E), r))
+            for r in range(m + k):
+                cases.append((bname, list(counts), r))
     return cases
 
 
 def geo_polygon(bname, E, r):
-    """The polygon (base + straight mid-side nodes on the sides in E, node list rotated by r) with one outer
-    neighbour quadrilateral on every side."""
+    """The polygon (base + E[i] straight mid-side nodes on side i: one at the middle, two at the quarter points -
+    exact in binary; node list rotated by r) with one outer neighbour quadrilateral on every side."""
     import mulgrids
     import numpy as np
     basepts = [np.array([float(x), float(y)]) for x, y in BASES[bname]]
@@ -548,10 +556,15 @@ def geo_polygon(bname, E, r):
         for i in range(m):
             a, b = corner[i], corner[(i + 1) % m]
             ring.append(a)
-            if i in E:
+            if E[i] == 1:
                 mid = newnode(0.5 * (a.pos + b.pos))
                 ring.append(mid)
                 sides += [(a, mid, i), (mid, b, i)]
+            elif E[i] == 2:
+                m1 = newnode(0.75 * a.pos + 0.25 * b.pos)
+                m2 = newnode(0.25 * a.pos + 0.75 * b.pos)
+                ring += [m1, m2]
+                sides += [(a, m1, i), (m1, m2, i), (m2, b, i)]
             else:
                 sides.append((a, b, i))
         ring = ring[r:] + ring[:r]
@@ -609,7 +622,7 @@ def run_case(case):
     site = SITE[kind]
     if kind in ('decompose', 'triangulate'):
         geo, cname = geo_polygon(case['base'], case['mids'], case['rot'])
-        klass = '%s+%dmid' % (case['base'], len(case['mids']))
+        klass = '%s+%dmid%s' % (case['base'], sum(case['mids']), ',two-on-a-side' if 2 in case['mids'] else '')
     else:
         geo = copy.deepcopy(base(case['geo']))
         klass = ''
@@ -798,6 +811,7 @@ def all_cases(tier):
     family(layer_cases, 'r3x3')
     family(layer_cases, 'r4x3')
     family(layer_cases, 't8')
+    family(layer_cases, 'r3x3n')
     if tier == 'quick':
         family(refine_cases, 'r3x3+refined', 'sample')
         family(refine_cases, 'g7', 'sample', bisects=[False, True])
